@@ -135,6 +135,15 @@ pub fn subjects(tier: Tier) -> Vec<Subject> {
         consts: vec![],
         register: false,
     });
+    // struct / enum patterns and literals with several refutable fields, fields written in
+    // non-declaration order, several structs / enums / functions: every map the compiler builds
+    // from them has at least two entries
+    out.push(Subject {
+        name: "structs-enums-patterns".into(),
+        src: "struct P3 { x: u8, y: u8, z: bool, w: u16 }\nstruct Q2 { inner: P3, k: u8 }\nenum Sh { Circle(u8), Rect(u8, u8), Tri(u8, u8, u8), Empty }\nenum Col { R, G, B }\nfn area(s: Sh) -> u8 {\n  match s {\n    Sh::Circle(r) => r,\n    Sh::Rect(w, h) => w ^ h,\n    Sh::Tri(a, b, c) => a ^ b ^ c,\n    Sh::Empty => 0u8,\n  }\n}\nfn pick(c: Col, p: P3) -> u8 {\n  match (c, p) {\n    (Col::R, P3 { x: 0u8, y: 1u8..=9u8, z: true, w: 7u16 }) => 1u8,\n    (Col::G, P3 { y: 2u8, x: 3u8, .. }) => 2u8,\n    (_, P3 { x, y, z, w }) => if z { x } else { y ^ (w as u8) },\n  }\n}\npub fn main(p: P3, q: Q2, s: Sh, c: Col, t: (u8, bool)) -> (u8, P3, Sh, Q2) {\n  let a = match p {\n    P3 { x: 0u8, y: 1u8..=9u8, z: true, w: 7u16 } => 1u8,\n    P3 { w: 100u16..=200u16, z: false, y: 5u8, x: 6u8 } => 2u8,\n    P3 { x: 1u8..=255u8, z: false, .. } => 3u8,\n    P3 { x, y, z, w } => x ^ y,\n  };\n  let Q2 { inner: P3 { x: qx, y: qy, z: qz, w: qw }, k } = q;\n  let r = P3 { w: qw, z: qz, y: qx + a, x: qy / p.x };\n  let b = match (s, t) {\n    (Sh::Circle(0u8), (_, true)) => 1u8,\n    (Sh::Rect(1u8, 2u8), (3u8, _)) => 2u8,\n    (Sh::Tri(a1, 0u8, c1), _) => a1 ^ c1,\n    (other, (k2, _)) => k2 ^ area(other),\n  };\n  (a ^ b ^ pick(c, p) ^ k, r, Sh::Tri(a, b, qx), Q2 { k: b, inner: P3 { z: qz, y: a, x: b, w: qw } })\n}\n".into(),
+        consts: vec![],
+        register: false,
+    });
     // missing / mistyped constants: verdict and error list must not depend on the order
     out.push(Subject { name: "consts-missing".into(), consts: vec![("P".into(), "A".into(), usz(2))], ..out[0].clone() });
     out.push(Subject { name: "consts-mistyped".into(), consts: vec![("P".into(), "A".into(), u8l(2)), ("Q".into(), "B".into(), Literal::True), ("P".into(), "D".into(), usz(7)), ("R".into(), "F".into(), u8l(9))], ..out[0].clone() });
